@@ -236,6 +236,25 @@ func llmnrScenarios(c *vf.Ctx, B int) []*scenario {
 			closeLServer(x, srv, hs, serr)
 		}})
 	}
+	// Close called FROM a handler (a "shut down on this packet" handler): any moment includes this one
+	out = append(out, &scenario{name: "llmnr-server-close-from-a-handler", keys: lKeys, bound: B, body: func(x *exec) {
+		closer := llmnr.HandlerFunc(func(s *llmnr.Server, ra net.Addr, w llmnr.ResponseWriter, m *llmnr.Message) bool {
+			if len(m.Questions) == 1 && m.Questions[0].Name == "shutdown" {
+				s.Close()
+				return false
+			}
+			return true
+		})
+		srv, hs, serr := startLServer(x, []llmnr.Handler{closer, answerHandler(x)})
+		vrt.Op(func() bool { return srv.Conn != nil || hs.Done() }, 0, "wait-listen")
+		var r1 []lresp
+		t1 := vrt.GoNamed("client-hostx", func() { r1 = lExchange(mkLQuery(0x0a0a, "hostx", "tok-x")) })
+		t2 := vrt.GoNamed("client-shutdown", func() { lExchange(mkLQuery(0x1414, "shutdown", "")) })
+		vrt.Join(t1)
+		vrt.Join(t2)
+		checkL(x, "client-hostx", 0x0a0a, "hostx", "tok-x", r1, false)
+		closeLServer(x, srv, hs, serr)
+	}})
 	// Close when the serve loop is NOT running: a server that was built but never started (the usual deferred
 	// Close on an early error path), and one whose ListenAndServe failed (no handlers / address in use)
 	out = append(out, &scenario{name: "llmnr-server-close-without-serve", keys: lKeys, bound: B, body: func(x *exec) {
